@@ -8,7 +8,7 @@ MUST_ENTER = [('a5/projections/dodecahedron.py', 'inverse'), ('a5/projections/po
               ('a5/projections/dodecahedron.py', '_get_reflected_face_triangle'), ('a5/projections/polyhedral.py', '_safe_acos')]
 RULE = ('planar triangles and quads P (diameter 1e-4..0.5 face widths, all 12 faces) centred anywhere in the face pentagon or its five mirror '
         'triangles (all densified points must pass the barycentric domain test), a third of them aimed at seams / face edges / the face '
-        'centre / face vertices. Edges are pre-split at the 10 seam rays and 5 face edges, densified in the plane with s = 4, 8, ... points, '
+        'centre / face vertices, 15% small triangles with one edge grazing a face centre / vertex / edge midpoint at 1e-10..1e-3 face units. Edges are pre-split at the 10 seam rays and 5 face edges, densified in the plane with s = 4, 8, ... points, '
         'mapped with DodecahedronProjection.inverse, and the image area is measured in the Lambert azimuthal equal-area plane; envelope rule '
         'as in C04 with tol 1e-6 (+ 5e-14 rad / diameter noise allowance), s up to 8192. K = (4 pi / 12) / area(face pentagon). '
         'distinct = distinct (face, polygon); non-trivial = every polygon (area > 0)')
@@ -139,6 +139,25 @@ def make_poly(rnd, dom, pent):
     else:
         cls = 'vertex'
         c = (v1[0] * (1 - abs(rnd.gauss(0, size / 2))), v1[1] * (1 - abs(rnd.gauss(0, size / 2))))
+    if rnd.random() < 0.15:
+        # an edge grazing a special point (face centre, face vertex, edge midpoint) at a log-small distance, small polygons favoured
+        cls = 'graze'
+        P = rnd.choice(((0.0, 0.0), v1, m))
+        size = 10 ** rnd.uniform(-4, -2) * width
+        d = 10 ** rnd.uniform(-10, -3) * rnd.choice((-1, 1))
+        th = rnd.uniform(0, 2 * math.pi)
+        ux, uy = math.cos(th), math.sin(th)
+        nx, ny = -uy, ux
+        t1, t2 = rnd.uniform(0.2, 0.8) * size, rnd.uniform(0.2, 0.8) * size
+        A = (P[0] + nx * d - ux * t1, P[1] + ny * d - uy * t1)
+        B = (P[0] + nx * d + ux * t2, P[1] + ny * d + uy * t2)
+        sgn = 1 if d >= 0 else -1
+        h = rnd.uniform(0.3, 1.0) * size
+        Cc = (P[0] + nx * (d + sgn * h) + ux * rnd.uniform(-0.3, 0.3) * size, P[1] + ny * (d + sgn * h) + uy * rnd.uniform(-0.3, 0.3) * size)
+        Pq = [A, B, Cc]
+        if not all(dom.inside(p) for p in densify(dom, Pq, 8)):
+            return None
+        return Pq, cls
     k = rnd.choice((3, 4))
     a0 = rnd.uniform(0, 2 * math.pi)
     P = []
@@ -181,7 +200,7 @@ def run_shard(spec, ctx):
 
 def finalize(m, tier):
     inc = []
-    for cls in ('anywhere', 'seam', 'edge', 'centre', 'vertex'):
+    for cls in ('anywhere', 'seam', 'edge', 'centre', 'vertex', 'graze'):
         if m['counters'].get(cls + '_held', 0) < 100:
             inc.append('class %s below floor' % cls)
     if m['counters'].get('inconclusive_polygons', 0) > 0.01 * max(1, m['evaluations']):
